@@ -5,6 +5,7 @@ use crate::case::Case;
 use crate::ctx::{Ctx, Monitors};
 
 pub mod e1;
+pub mod e2;
 pub mod e5;
 pub mod e6;
 
@@ -90,6 +91,16 @@ pub fn spec(prop: &str, tier: Tier) -> Option<PropSpec> {
             exhaustive: false,
             rule: RULE_E1,
         },
+        "C10" => PropSpec {
+            id: "C10",
+            level: "exploration",
+            batches: vec![
+                Batch { engine: "e2", profile: "debug", runs: e2::exhaustive_count(tier) + if q { 30_000 } else { 1_000_000 } },
+                Batch { engine: "e2", profile: "release", runs: e2::exhaustive_count(tier) + if q { 60_000 } else { 4_000_000 } },
+            ],
+            exhaustive: false,
+            rule: "one evaluation = one history of Reader operations applied in lock-step to EndianSlice, EndianRcSlice, EndianArcSlice, EndianReader<CountingBuf>, RelocateReader<identity> and the safe cursor model (first block: every history up to length 3 (quick) / 4 (thorough) over a 20-operation alphabet on a 6-byte buffer, exhaustively), or one whole-section parse repeated under all six reader kinds; non-trivial = >=1 operation/parse item AND the history ran to its end; distinct = distinct event-stream digests",
+        },
         "C20" => PropSpec {
             id: "C20",
             level: "exploration",
@@ -132,6 +143,7 @@ pub fn class_belongs(prop: &str, class: &str) -> bool {
 pub fn gen_case(engine: &str, prop: &str, tier: Tier, master: u64, i: u64) -> Case {
     match engine {
         "e1" => e1::gen_case(prop, tier, master, i),
+        "e2" => e2::gen_case(tier, master, i),
         "e5" => e5::gen_case(i),
         "e6" => e6::gen_case(tier, master, i),
         _ => panic!("unknown engine {}", engine),
@@ -142,6 +154,7 @@ pub fn gen_case(engine: &str, prop: &str, tier: Tier, master: u64, i: u64) -> Ca
 pub fn dispatch(case: &Case, ctx: &mut Ctx<'_>) {
     match case.engine.as_str() {
         "e1" => e1::run(case, ctx),
+        "e2" => e2::run(case, ctx),
         "e5" => e5::run(case, ctx),
         "e6" => e6::run(case, ctx),
         other => panic!("unknown engine {}", other),
